@@ -116,7 +116,49 @@ def c_jumps(c):
     c.goal('q_correct.no-jump', bool(np.all(np.linalg.norm(np.diff(out2, axis=0), axis=1) <= 1.0)))
 
 
+def _nan_cases():
+    out = []
+    for n in range(3, 8):
+        for i in range(1, n - 1):
+            for j in range(i, n - 1):
+                out.append(dict(n=float(n), i=float(i), j=float(j)))
+    return out
+
+
+def _spec_slerp(p, q, t):
+    d = float(np.dot(p, q))
+    if d < 0:
+        q, d = -q, -d
+    if d > 0.9995:
+        r = p + t * (q - p)
+        return r / np.linalg.norm(r)
+    om = np.arccos(d)
+    return (np.sin((1 - t) * om) * p + np.sin(t * om) * q) / np.sin(om)
+
+
+@contract('C12', 'slerp_nan.bounded', concrete_points=_nan_cases(), bounded='every interior NaN run (position, length) of every sequence '
+          'length N <= 7 (50 cases) on one trajectory; NOT a proof', functions=['QuaternionArray.slerp_nan', 'core.get_nan_intervals'])
+def c_nan(c):
+    """BOUNDED stand-in: NaN rows are filled with the spherical interpolants between the neighbouring valid rows (independent
+    formula sin((1-t)W)p + sin(tW)q over sin W), valid rows stay unchanged"""
+    import ahrs
+    n, i, j = int(c.real('n')), int(c.real('i')), int(c.real('j'))
+    ang = np.linspace(0.2, 0.2 + 0.35 * (n - 1), n)
+    base = np.c_[np.cos(ang / 2), np.sin(ang / 2) * 0.6, np.sin(ang / 2) * 0.0, np.sin(ang / 2) * 0.8]
+    data = base.copy()
+    data[i:j + 1] = np.nan
+    QA = ahrs.QuaternionArray.__new__(ahrs.QuaternionArray, base.copy())
+    QA.array[i:j + 1] = np.nan
+    out = QA.slerp_nan(inplace=False)
+    ok_valid = all(np.allclose(out[k], base[k], atol=1e-12) for k in range(n) if not (i <= k <= j))
+    ts = np.linspace(0, 1, (j - i + 1) + 2)[1:-1]
+    ok_fill = all(np.allclose(out[i + k], _spec_slerp(base[i - 1], base[j + 1], ts[k]), atol=1e-9) for k in range(j - i + 1))
+    c.goal('valid-rows-unchanged', ok_valid)
+    c.goal('gap=slerp', ok_fill)
+    c.goal('no-nan-left', not np.isnan(out).any())
+
+
 NOT_COVERED = ["LERP branch: proportionality of the angle to the weight (only approximate there; unit norm, endpoints and "
                "betweenness are proved)",
-               "slerp_nan / remove_jumps / q_correct / get_nan_intervals (index logic over arrays with NaN rows): covered by the "
-               "bounded units below when present, otherwise not covered"]
+               "slerp_nan / remove_jumps / q_correct / get_nan_intervals as for-all-lengths claims (index logic over arrays): only the "
+               "bounded units remove_jumps.bounded and slerp_nan.bounded, which are not counted as proved"]
